@@ -108,8 +108,16 @@ func H_C11_messages() {
 		symAssert(proto.Equal(req, snap), "UnmarshalSetRequest modified the SetRequest it was given")
 	case 2: // Unmarshal and the decoded JSON value
 		v := c01S("v", 1)
+		// member names bare or module-qualified ("v:cfg"), as RFC 7951 allows
+		q := func(tag, name string) string {
+			if symBool("qualified." + tag) {
+				return "v:" + name
+			}
+			return name
+		}
+		nCfg, nLl, nKs, nName := q("cfg", "cfg"), q("ll", "ll"), q("ks", "ks"), q("name", "name")
 		mk := func() map[string]interface{} {
-			return map[string]interface{}{"cfg": v, "ll": []interface{}{"a", "b"}, "ks": []interface{}{map[string]interface{}{"name": "k", "val": float64(3)}}}
+			return map[string]interface{}{nCfg: v, nLl: []interface{}{"a", "b"}, nKs: []interface{}{map[string]interface{}{nName: "k", "val": float64(3)}}}
 		}
 		j, twin := mk(), mk()
 		err := ytypes.Unmarshal(SchemaTree["V_C"], &V_C{}, j)
